@@ -420,7 +420,7 @@ fn arbitrary(rng: &mut Rng) -> Vec<u8> {
     (0..n).map(|_| if rng.chance(1, 20) { rng.next() as u8 } else { *rng.pick(alpha) }).collect()
 }
 
-/// One case line.  `opt` selects the family: layout | rt | mutate | arbitrary | corrupt | fault | ls | log
+/// One case line.  `opt` selects the family: layout | rt | mutate | arbitrary | corrupt | fault | ls | log | scale
 pub fn gen_case(rng: &mut Rng, opt: &str, _thorough: bool) -> String {
     let (ty, tmax) = *rng.pick(TYPES);
     let cfg = rng.chance(1, 3);
@@ -646,7 +646,6 @@ struct Sd {
 impl Sd {
     fn lit(&mut self, b: &[u8]) { if !self.dead { self.sb.lit(b); } }
     fn nl(&mut self) { let e = self.eol; self.lit(e); }
-    fn rep(&mut self, n: usize, unit: &[u8]) { if !self.dead { self.sb.rep(n, unit); } }
     /// the scaled element: a run
     fn srep(&mut self, n: usize, unit: &[u8]) {
         if self.dead { return; }
@@ -793,16 +792,16 @@ const DIMS: &[Dim] = &[
     dim("ws-trail", 1, &[E1, V, F, E2]),
     dim("cmt-long", 1, &[E2, V, F, E1]),
     dim("wide", 8, &[V, E1, F, E2]),
-    Dim { name: "wide-lines", lo: 8, hi_q: 18, hi_t: 21, thr_q: 2100, thr_t: 8300, w: 1, modes: &[V, E1, F, Ls, E2] },
-    Dim { name: "many", lo: 8, hi_q: 20, hi_t: 21, thr_q: 2100, thr_t: 8300, w: 1, modes: &[V, E1, F, Ls, E2] },
+    Dim { name: "wide-lines", lo: 8, hi_q: 18, hi_t: 21, thr_q: (1 << 16) + 64, thr_t: (1 << 20) + 64, w: 1, modes: &[V, E1, F, Ls, E2] },
+    Dim { name: "many", lo: 8, hi_q: 20, hi_t: 21, thr_q: (1 << 16) + 64, thr_t: (1 << 19) + 64, w: 1, modes: &[V, E1, F, Ls, E2] },
     Dim { name: "stride", lo: 10, hi_q: 16, hi_t: 16, thr_q: NO_THR, thr_t: NO_THR, w: 16, modes: &[V, E1, F] },
     dim("zeros", 4, &[V, E1, F, E2]),
     Dim { name: "digits-bad", lo: 10, hi_q: 19, hi_t: 21, thr_q: NO_THR, thr_t: NO_THR, w: 4, modes: &[E1, F] },
     dim("log-clines", 2, &[E1, V, F, Ls]),
     dim("log-cmt-long", 1, &[V, E1, F]),
-    Dim { name: "log-wide", lo: 10, hi_q: 18, hi_t: 21, thr_q: NO_THR, thr_t: NO_THR, w: 8, modes: &[V, E1, F] },
-    Dim { name: "log-vlines", lo: 8, hi_q: 18, hi_t: 21, thr_q: 2100, thr_t: 4200, w: 1, modes: &[V, E1, F, Ls] },
-    Dim { name: "log-skip-lines", lo: 8, hi_q: 20, hi_t: 21, thr_q: 2100, thr_t: 4200, w: 1, modes: &[V, E1, F, Ls] },
+    Dim { name: "log-wide", lo: 10, hi_q: 18, hi_t: 21, thr_q: (1 << 16) + 64, thr_t: NO_THR, w: 8, modes: &[V, E1, F] },
+    Dim { name: "log-vlines", lo: 8, hi_q: 18, hi_t: 21, thr_q: (1 << 16) + 64, thr_t: (1 << 20) + 64, w: 1, modes: &[V, E1, F, Ls] },
+    Dim { name: "log-skip-lines", lo: 8, hi_q: 20, hi_t: 21, thr_q: NO_THR, thr_t: NO_THR, w: 1, modes: &[V, E1, F, Ls] },
     dim("log-skip-long", 1, &[V, E1, F]),
     dim("log-ws", 1, &[E1, V, F]),
     Dim { name: "log-zeros", lo: 10, hi_q: 17, hi_t: 21, thr_q: NO_THR, thr_t: NO_THR, w: 4, modes: &[V, E1, F] },
@@ -811,7 +810,7 @@ const DIMS: &[Dim] = &[
 /// The order in which (dimension, size, mode) combinations are generated:
 ///  A.  every dimension at its largest size (and, where the model is skipped above a threshold,
 ///      at the largest model-checked size), in its first mode;
-///  B.  every dimension at a medium size in each of its other modes;
+///  B.  every dimension at a medium size m * (2^e + 1) in each of its other modes;
 ///  C.  every dimension at every size derived from a source constant `c` (modes rotate):
 ///      first c-1, c, c+1, then c+8, c+9, 2c, 2c+1, then 3(c+1), 5(c+1), 4c+4, each group in a
 ///      fixed pseudo-random order;
@@ -847,9 +846,14 @@ fn scale_plan(thorough: bool) -> &'static Plan {
         let a_len = plan.len();
         for (i, d) in DIMS.iter().enumerate() {
             let cap = d.thr(thorough).min((1 << if thorough { 18 } else { 15 }) / d.w);
-            let mid: Vec<usize> = sizes[i].iter().copied().filter(|&s| s <= cap && s >= cap / 4).collect();
+            // medium sizes are exact multiples m * (2^e + 1): periodic effects (a flush / refill
+            // every 2^e bytes or items) line up with the end of the scaled element
+            let top = usize::BITS - 1 - cap.leading_zeros();
             for (j, m) in d.modes.iter().enumerate().skip(1) {
-                if !mid.is_empty() { plan.push((i, mid[(j * 7 + i) % mid.len()], *m)); }
+                let mult = [1usize, 2, 3, 5, 7][(i + j) % 5];
+                let mut e = top.saturating_sub(1 + (j as u32 % 3)).max(4);
+                while e > 4 && mult * ((1usize << e) + 1) > cap { e -= 1; }
+                plan.push((i, mult * ((1usize << e) + 1), *m));
             }
         }
         let mut seen: std::collections::HashSet<(usize, usize)> = plan.iter().chain(deep.iter()).map(|p| (p.0, p.1)).collect();
@@ -928,7 +932,11 @@ pub fn scale_case(rng: &mut Rng, thorough: bool) -> String {
         let hi = d.hi(thorough);
         let k = rng.range(d.lo as u64, hi as u64) as u32;
         let around = scale_sizes(k.max(d.lo + 1) - 1, k);
-        let n = if rng.chance(1, 4) { rng.range(1 << d.lo, 1 << k) as usize } else { *rng.pick(&around) };
+        let n = match rng.below(5) {
+            0 => rng.range(1 << d.lo, 1 << k) as usize,
+            1 => { let e = rng.range(d.lo.saturating_sub(4).max(4) as u64, k as u64) as u32; ((1usize << k) >> e).max(1) * ((1usize << e) + 1) }
+            _ => *rng.pick(&around),
+        };
         // keep the random tail cheap: the big sizes are the planned part
         let n = if !thorough && n > (1 << 18) && rng.chance(3, 4) { n >> 3 } else { n };
         (di, n.max(1), *rng.pick(d.modes))
@@ -1300,7 +1308,7 @@ fn build_scale(rng: &mut Rng, di: usize, n: usize, mode: Mode, plain_units: bool
     line.push_str(&format!(" k={}", match k { Some(k) => k.to_string(), None => "-".into() }));
     line.push_str(&format!(" ls={}", (mode == Ls) as u8));
     line.push_str(&format!(" d={}", d.sb.spec()));
-    if !injected && !is_err_doc(&d) && k.is_none() && mode != Ls {
+    if !injected && !d.dead && k.is_none() && mode != Ls {
         let hdr_item = if is_log { vec![] } else { vec![d.hdr.clone()] };
         let items: Vec<String> = hdr_item.into_iter().chain(d.items.iter().cloned()).collect();
         line.push_str(&format!(" x={}", crate::eng_cnf::obs_text(&items, "END")));
@@ -1313,5 +1321,3 @@ fn build_scale(rng: &mut Rng, di: usize, n: usize, mode: Mode, plain_units: bool
     line.push_str(&format!(" dim={} n={}", name, n));
     line
 }
-
-fn is_err_doc(d: &Sd) -> bool { d.dead }
